@@ -224,8 +224,10 @@ def dataset_shape(draw, max_n=40, max_d=4, min_n=1, dtypes=DTYPES, layouts=LAYOU
         step = draw(st.sampled_from([1, 2]))
         jitter = None
     layout = draw(st.sampled_from(list(layouts)))
+    # read-only data (np.load(..., mmap_mode='r'), a view of somebody else's array): clustering only reads X
+    readonly = draw(st.sampled_from([False, False, False, True]))
     return {"n": n, "d": d, "nb": nb, "step": step, "jitter": jitter, "dtype": dtype,
-            "layout": layout, "kind": kind}
+            "layout": layout, "kind": kind, "readonly": readonly}
 
 
 @st.composite
@@ -248,7 +250,7 @@ def dataset_sites(draw, shape):
             off = _decode(o, obase, d)
             sites.append([blob_sites[b][j] + off[j] for j in range(d)])
     return {"sites": sites, "step": shape["step"], "jitter": shape["jitter"], "dtype": shape["dtype"],
-            "layout": shape["layout"], "kind": kind}
+            "layout": shape["layout"], "kind": kind, "readonly": bool(shape.get("readonly"))}
 
 
 @st.composite
@@ -303,6 +305,10 @@ def build_points(spec):
         assert X.shape == vals.shape
     else:
         raise ValueError(layout)
+    if spec.get("readonly"):
+        if X.base is not None and isinstance(X.base, np.ndarray):
+            X.base.flags.writeable = False
+        X.flags.writeable = False
     return X
 
 
